@@ -7,7 +7,7 @@ from vlib import fmt_list
 
 PID = 'C14'
 RULE = ('encode_str then decode_str on strings drawn from ASCII, Latin-1 supplement, C0/C1 controls, BMP and astral scalars, alone and '
-        'mixed, inside and outside Macro 05/06 envelopes; utf8_to_latin1 / latin1_to_utf8 on every scalar value up to U+017F plus '
+        'mixed, inside and outside Macro 05/06 envelopes; scalars with a special role (U+FEFF, non-characters, the borders of the UTF-8 lengths and of the surrogate gap, C1/Latin-1 borders, invisible characters) in every position of short strings; utf8_to_latin1 / latin1_to_utf8 on every scalar value up to U+017F plus '
         'samples of the rest and on all 256 bytes; non-trivial = non-empty string')
 THEOREMS = 'C14_tables, C14_helpers, C14_inverse, C14_choice, C14_eci_header, C14_utf8_roundtrip'
 ASSUMPTIONS = ['Rust String/char modelled as scalar lists; the sort order of remove_hopeless_cases is taken from the implementation']
@@ -39,6 +39,15 @@ def gen_cases(rng, tier, ctx):
         s = rand_string(rng)
         wl = gen.DEFAULT if rng.chance(1, 2) else gen.ALL48
         cs.append({'line': 'str_rt %s %s' % (fmt_list(s), fmt_list(wl)), 'cat': 'roundtrip', 's': s})
+    # scalar values with a special role somewhere (byte order mark, non-characters, the borders of the UTF-8 lengths and
+    # of the surrogate gap, C1 / Latin-1 borders, invisible characters), in every position of a short string
+    special = [0xFEFF, 0xFFFE, 0xFFFF, 0xFFFD, 0, 0x7F, 0x80, 0x85, 0x9F, 0xA0, 0xAD, 0xFF, 0x100, 0x7FF, 0x800, 0xD7FF, 0xE000,
+               0x10000, 0x10FFFF, 0x2028, 0x2029, 0x200B, 0x1F, 0x20]
+    for c in special:
+        for s in ([c], [c, 65], [65, c], [c, c], [0x4E2D, c, 65], [c, 0x4E2D], gen.H05 + [c, 66] + gen.TRAIL, gen.H06 + [66, c] + gen.TRAIL,
+                  [c] + [0x20AC] * 3, [233, c, 233]):
+            for wl in (gen.DEFAULT, gen.ALL48):
+                cs.append({'line': 'str_rt %s %s' % (fmt_list(s), fmt_list(wl)), 'cat': 'special-scalar', 's': s})
     # helpers on their whole domains
     for c in range(0, 0x180):
         cs.append({'line': 'utf8_to_latin1 %d' % c, 'cat': 'helper', 's': [c]})
